@@ -298,41 +298,41 @@ func (m *mysqlBoundValue) Encode() (encoded []byte, err error) {
 	case base_mysql.TypeTiny:
 		intValue, err := strconv.ParseInt(utils.BytesToString(m.data), 10, 8)
 		if err != nil {
-			return nil, err
+			return nil, utils.ErrorWithoutValue(err)
 		}
 		outErr = binary.Write(bytes.NewBuffer(encoded[:0]), binary.LittleEndian, int8(intValue))
 	case base_mysql.TypeShort, base_mysql.TypeYear:
 		intValue, err := strconv.ParseInt(utils.BytesToString(m.data), 10, 16)
 		if err != nil {
-			return nil, err
+			return nil, utils.ErrorWithoutValue(err)
 		}
 		outErr = binary.Write(bytes.NewBuffer(encoded[:0]), binary.LittleEndian, int16(intValue))
 
 	case base_mysql.TypeInt24, base_mysql.TypeLong:
 		intValue, err := strconv.ParseInt(utils.BytesToString(m.data), 10, 32)
 		if err != nil {
-			return nil, err
+			return nil, utils.ErrorWithoutValue(err)
 		}
 		outErr = binary.Write(bytes.NewBuffer(encoded[:0]), binary.LittleEndian, int32(intValue))
 
 	case base_mysql.TypeLongLong:
 		intValue, err := strconv.ParseInt(utils.BytesToString(m.data), 10, 64)
 		if err != nil {
-			return nil, err
+			return nil, utils.ErrorWithoutValue(err)
 		}
 		outErr = binary.Write(bytes.NewBuffer(encoded[:0]), binary.LittleEndian, intValue)
 
 	case base_mysql.TypeFloat:
 		floatValue, err := strconv.ParseFloat(utils.BytesToString(m.data), 32)
 		if err != nil {
-			return nil, err
+			return nil, utils.ErrorWithoutValue(err)
 		}
 		outErr = binary.Write(bytes.NewBuffer(encoded[:0]), binary.LittleEndian, float32(floatValue))
 
 	case base_mysql.TypeDouble:
 		floatValue, err := strconv.ParseFloat(utils.BytesToString(m.data), 64)
 		if err != nil {
-			return nil, err
+			return nil, utils.ErrorWithoutValue(err)
 		}
 		outErr = binary.Write(bytes.NewBuffer(encoded[:0]), binary.LittleEndian, floatValue)
 
